@@ -499,6 +499,10 @@ class Gen:
         if k == 'union':
             opts = t[1:]
             c = [['chg', len(opts) + r.choice([0, 1, 200]), 'none']]
+            # negative selectors, with a value that is valid for the option python's negative indexing would pick
+            neg = -r.randint(1, len(opts))
+            c.append(['chg', neg, 'none' if opts[neg] == 'none' else self.val(opts[neg], 4)])
+            c.append(['chg', -len(opts) - 1, 'none'])
             for i, o in enumerate(opts):
                 if o == 'none':
                     c.append(['chg', i, r.choice(['5', '0', '0'])])
@@ -859,7 +863,7 @@ class StoreGen:
             return ['chg', sel, 'none' if opts[sel] == 'none' else g.val(opts[sel], 6)]
         return None
 
-    def history(self, n, p_bad=0.0):
+    def history(self, n, p_bad=0.0, p_badsets=0.0):
         g = self.g
         r = g.rng
         ops = []
@@ -911,6 +915,23 @@ class StoreGen:
                     continue
                 i = r.choice(idx + [x for x in idx if self.views[x]['hook'] is not None] * 2)
                 vw = self.views[i]
+                if p_badsets > 0 and r.random() < p_badsets and kind(vw['t']) in ('list', 'vec') and len(vw['v']) - 1 >= 2:
+                    # a slice assignment that fails in the middle (an invalid item, or running past the end): the items
+                    # before the failing one stay written, and the view must stay attached to its parents
+                    t_, v_ = vw['t'], vw['v']
+                    ln = len(v_) - 1
+                    if r.random() < 0.5 and is_basic(t_[1]) and t_[1] not in ('u256', 'bool'):
+                        st = r.randrange(ln - 1)
+                        good = [g.val(t_[1], 3) for _ in range(r.randint(1, min(2, ln - 1 - st)))]
+                        items = good + [str(1 << (8 * UINT_W[t_[1]]))]
+                    else:
+                        st = r.randrange(max(ln - 2, 0), ln)
+                        good = [g.val(t_[1], 3) for _ in range(ln - st)]
+                        items = good + [g.val(t_[1], 3)]
+                    vw['v'] = v_[:1 + st] + good + v_[1 + st + len(good):]
+                    self.propagate(i)
+                    ops.append(['bad', i, ['sets', st, ['s'] + items]])
+                    continue
                 if p_bad > 0 and r.random() < p_bad:
                     bad = g.invalid_op(vw['t'], vw['v'])
                     if bad is not None:
